@@ -81,7 +81,7 @@ theorem KeyInv.step {K : Nat → Bool} {t : Nat} {s s' : EState} {u : Nat} (h : 
       rw [f5] at hw
       rw [f2] at hcur
       have hm : op.frame.m ≠ .newScope := by
-        intro hh; rw [hh] at f5; simp [writeMethod] at f5; rw [← f5] at hw; cases hw
+        intro hh; rw [hh] at f5; simp [writeMethod] at f5; rw [hw] at f5; cases f5
       obtain ⟨k, hk⟩ := f4 hm
       rw [f3 k hk]; exact h.stratO u hu _ op k hsr hw hcur hk
   | finish fr hc hr hd hm => intro fr' hfr; simp [upd] at hfr
